@@ -42,7 +42,7 @@ VALUES = [None, True, 1, 1.0, "1", [], {}, [1], [True], {"a": 1}, {"a": True}, "
 
 
 def plan(tier, seed):
-    specs = [{"kind": "flags"}, {"kind": "test-equality"}, {"kind": "scale"}] + [{"kind": "single", "doc": i, "ops": ops} for i in range(len(DOCS)) for ops in (["add", "replace", "test", "remove"], ["move"], ["copy"])]
+    specs = [{"kind": "flags"}, {"kind": "test-equality"}, {"kind": "scale"}, {"kind": "pointer-subclass"}] + [{"kind": "single", "doc": i, "ops": ops} for i in range(len(DOCS)) for ops in (["add", "replace", "test", "remove"], ["move"], ["copy"])]
     for _ in range(6 if tier == "quick" else 20):
         specs.append({"kind": "sequences", "n": 2500 if tier == "quick" else 60000})
     return specs
@@ -170,6 +170,62 @@ def check(ctx, doc, ops, cls):
     ctx.cell("outcomes", "%s -> document" % opn)
 
 
+_PTR_CLASSES = {}
+
+
+def pointer_classes():
+    """The stock pointer class and subclasses of it that override the documented `keys_selector` attribute."""
+    if not _PTR_CLASSES:
+        from jsonpath import JSONPointer
+
+        _PTR_CLASSES["stock"] = JSONPointer
+        _PTR_CLASSES["keys_selector='@'"] = type("AtPointer", (JSONPointer,), {"keys_selector": "@"})
+        _PTR_CLASSES["keys_selector='key:'"] = type("WordPointer", (JSONPointer,), {"keys_selector": "key:"})
+        _PTR_CLASSES["plain subclass"] = type("MyPointer", (JSONPointer,), {})
+    return _PTR_CLASSES
+
+
+def check_builder(ctx, doc, ops, cname):
+    """The operations through the builder API with pre-parsed pointer OBJECTS of class `cname`: outcome (document or
+    kind of failure) against the RFC model, whose paths are plain token sequences."""
+    import jsonpath
+
+    P = pointer_classes()[cname]
+    ctx.evaluation()
+    case = {"doc": doc, "ops": ops, "class": "pointer-subclass", "pointer_class": cname}
+    try:
+        want, fail = rp.apply_patch(doc, ops), None
+    except rp.PatchFail as e:
+        want, fail = None, e
+    except rp.Unspecified:
+        return
+    try:
+        b = jsonpath.JSONPatch()
+        for op in copy.deepcopy(ops):
+            if op["op"] in ("add", "replace", "test"):
+                getattr(b, op["op"])(P(op["path"], unicode_escape=False), op["value"])
+            elif op["op"] == "remove":
+                b.remove(P(op["path"], unicode_escape=False))
+            else:
+                getattr(b, op["op"])(P(op["from"], unicode_escape=False), P(op["path"], unicode_escape=False))
+        ob = impl.call(b.apply, copy.deepcopy(doc))
+    except Exception as e:  # noqa: BLE001
+        ob = impl.Outcome(False, exc=e)
+    ctx.count("builder_route_applications")
+    ctx.cell("pointer_classes", cname)
+    opn = "+".join(op["op"] for op in ops) if len(ops) == 1 else "sequence"
+    if fail is not None:
+        if ob.ok:
+            ctx.violation("rfc-error-accepted-through-builder:%s" % opn, case, {"ops": ops, "pointer_class": cname, "doc": canon(doc)[:200], "why": str(fail), "result": canon(ob.value)[:200]})
+        elif not isinstance(ob.exc, jsonpath.JSONPatchError):
+            ctx.violation("failed-with-foreign-exception-through-builder:%s:%s" % (opn, type(ob.exc).__name__), case, {"ops": ops, "pointer_class": cname, "error": ob.desc()})
+        elif fail.test_failed and not isinstance(ob.exc, jsonpath.JSONPatchTestFailure):
+            ctx.violation("failed-test-not-reported-as-test-failure", case, {"ops": ops, "error": ob.desc()})
+        return
+    if not ob.ok or not strict_eq(ob.value, want):
+        ctx.violation("builder-route-differs-from-rfc:%s" % opn, case, {"ops": ops, "pointer_class": cname, "builder": ob.desc() if not ob.ok else canon(ob.value)[:300], "expected": canon(want)[:300]})
+
+
 def gen_sequence(r, doc):
     """Operations generated against the model's evolving document, so later ones address what earlier ones made."""
     cur = copy.deepcopy(doc)
@@ -199,6 +255,21 @@ def run(spec, ctx):
         from rt import flag_history
 
         flag_history.run(ctx)
+        return
+    if spec["kind"] == "pointer-subclass":
+        # names that begin with what a pointer class treats as its key marker, next to the names they would mark
+        docs = [{"a": 1, "b": [1, 2], "@b": "at-b", "#c": 3, "c": {"x": 1}, "key:a": "ka", "~": 0}, {"a": {"a": 1}, "@": 2, "x": ["a", "@a"]}, ["a", "@0", {"0": 1, "@0": 2}]]
+        toks = ["a", "@a", "@b", "#a", "#c", "~a", "@zz", "@0", "#0", "key:a", "key:b", "@", "c", "@c", "x", "0", "2", "-"]
+        n_ = 0
+        for doc in docs:
+            paths = ["/" + rp.encode_token(t) for t in toks] + ["/c/" + rp.encode_token(t) for t in ("x", "@x", "#x", "key:x")] + ["/2/" + rp.encode_token(t) for t in ("0", "@0", "#0")]
+            for cname in pointer_classes():
+                for p_ in paths:
+                    for ops in ([{"op": "replace", "path": p_, "value": "R"}], [{"op": "remove", "path": p_}], [{"op": "test", "path": p_, "value": "a"}], [{"op": "test", "path": p_, "value": 1}], [{"op": "add", "path": p_, "value": "A"}],
+                                [{"op": "move", "from": p_, "path": "/moved"}], [{"op": "copy", "from": p_, "path": "/copied"}], [{"op": "copy", "from": "/a", "path": p_}] if isinstance(doc, dict) else [{"op": "copy", "from": "/0", "path": p_}]):
+                        check_builder(ctx, doc, ops, cname)
+                        n_ += 1
+        ctx.bulk(n_)
         return
     if spec["kind"] == "scale":
         # operations far into long arrays and wide objects: multi-digit indices, index == length, sizes around powers of two
@@ -290,6 +361,9 @@ def replay(case, ctx):
         from rt import flag_history
 
         flag_history.run(ctx)
+        return
+    if case.get("pointer_class"):
+        check_builder(ctx, case["doc"], case["ops"], case["pointer_class"])
         return
     ctx._force_builder = bool(case.get("builder_from_parts"))
     check(ctx, case["doc"], case["ops"], case.get("class", "replay"))
